@@ -145,3 +145,58 @@ Proof.
     split; [exact (pn_step dbg hp hpo hd HW u o u' HIP Ku Ha G2 H Pu) | exact Rn'].
 Qed.
 End Reach.
+
+(* ---------- the hypotheses are met; a history through the special-scheme path setter ---------- *)
+From Coq Require Import String.
+From RU Require Import Proofs.C03_ReachEx.
+Open Scope string_scope.
+
+(* Host::parse fails on the empty text (EmptyHost); Host::parse_opaque returns the empty host *)
+Definition ex_hp3 (s : list N) : result host := match s with [] => Err EmptyHost | _ => ex_hp s end.
+
+Lemma ex3_hyps : (HostRT ex_hp3 ex_hp ex_hd2 /\ host_above ex_hp3 ex_hp ex_hd2) /\ NoEmpty ex_hp3 /\ IpWf ex_hd2.
+Proof.
+  destruct ex2_host_RT as [(A & B0 & C & D) (E & F)].
+  assert (forall s h, ex_hp3 s = Ok h -> ex_hp s = Ok h /\ s <> []) as X.
+  { intros s h H. destruct s as [|c r]; [discriminate|]. split; [exact H | discriminate]. }
+  split; [split; [split; [|split; [exact B0 | split; [exact C | exact D]]] | split; [|exact F]]|split].
+  - intros s h H Hne. destruct (X s h H) as [H' _]. destruct (A s h H' Hne) as [T R]. split; [exact T|].
+    destruct (ex_hd2 h) as [|c r] eqn:Ed; [destruct T as (_ & T2 & _); contradiction | exact R].
+  - intros s h H. exact (E s h (proj1 (X s h H))).
+  - intros s H. destruct (X s _ H) as [H' Hs]. destruct s as [|c r]; [contradiction|].
+    unfold ex_hp in H'. destruct (forallb ex_hostc (c :: r)); discriminate.
+  - intros h Hh. destruct h as [d|a|p]; cbn in Hh; [contradiction | |]; cbn [ex_hd2];
+      (split; [discriminate|]); (split; [discriminate|]); (split; [discriminate | reflexivity]).
+Qed.
+
+Ltac exk_step o tac :=
+  match goal with R : reach03k ?d ?hp ?hpo ?hd ?u |- _ =>
+    let E := fresh "E" in let u1 := fresh "u" in let E' := fresh "E" in
+    destruct (apply_op d hp hpo hd u o) as [u1|] eqn:E; [|vm_compute in E; discriminate];
+    pose proof E as E'; vm_compute in E'; injection E' as <-;
+    match type of E with apply_op _ _ _ _ _ _ = Some ?u' =>
+      let R' := fresh "R" in
+      assert (reach03k d hp hpo hd u') as R'
+        by (apply (RK_step d hp hpo hd u o u' R); [cbn [op_args_ok usv_opt]; tac | vm_compute; reflexivity | exact E]);
+      clear R E
+    end
+  end.
+
+(* parse "http://h:81/p?q"; set_path "x/../y" (the special-scheme path setter: auth_end_ok is used);
+   quirks set_host "g:443" (stored: not the default of http); set_scheme "https" (443 is its default: dropped) *)
+Definition reach03k_example_stmt : Prop :=
+  exists u, reach03k true ex_hp3 ex_hp ex_hd2 u /\ ser u = B "https://g/y?q".
+
+Lemma reach03k_example : reach03k_example_stmt.
+Proof.
+  destruct (parse_url true ex_hp3 ex_hp ex_hd2 None None (B "http://h:81/p?q")) as [u0| |] eqn:E0;
+    [|vm_compute in E0; discriminate ..].
+  assert (reach03k true ex_hp3 ex_hp ex_hd2 u0) as R0
+    by (apply (RK_parse true ex_hp3 ex_hp ex_hd2 (B "http://h:81/p?q") u0); [usv_tac | vm_compute; reflexivity | exact E0]).
+  vm_compute in E0. injection E0 as <-.
+  exk_step (OSetPath (B "x/../y")) usv_tac.
+  exk_step (OQHost (B "g:443")) usv_tac.
+  exk_step (OSetScheme (B "https")) usv_tac.
+  match goal with R : reach03k _ _ _ _ ?u |- _ => exists u end.
+  split; [assumption | vm_compute; reflexivity].
+Qed.
